@@ -264,7 +264,11 @@ func (c *Collection) CreateIndex(indexName, columnName string, fn func(r Reader)
 	// Create and add the index column,
 	index := newIndex(indexName, columnName, fn)
 	c.lock.Lock()
-	index.Grow(uint32(c.opts.Capacity))
+	size := uint32(c.opts.Capacity)
+	if extent := uint32(len(c.fill)) << 6; extent > size {
+		size = extent - 1 // cover every chunk in use, the bitmap must not be re-allocated by a commit
+	}
+	index.Grow(size)
 	c.cols.Store(indexName, index)
 	c.cols.Store(columnName, column, index)
 	c.lock.Unlock()
@@ -275,10 +279,12 @@ func (c *Collection) CreateIndex(indexName, columnName string, fn func(r Reader)
 	buffer := commit.NewBuffer(c.Count())
 	reader := commit.NewReader()
 	for chunk := commit.Chunk(0); int(chunk) < chunks; chunk++ {
+		c.slock.Lock(uint(chunk)) // no commit may touch the chunk while it is indexed
 		if column.Snapshot(chunk, buffer) {
 			reader.Seek(buffer)
 			index.Apply(chunk, reader)
 		}
+		c.slock.Unlock(uint(chunk))
 	}
 
 	return nil
@@ -316,10 +322,12 @@ func (c *Collection) CreateSortIndex(indexName, columnName string) error {
 	buffer := commit.NewBuffer(c.Count())
 	reader := commit.NewReader()
 	for chunk := commit.Chunk(0); int(chunk) < chunks; chunk++ {
+		c.slock.Lock(uint(chunk)) // no commit may touch the chunk while it is indexed
 		if column.Snapshot(chunk, buffer) {
 			reader.Seek(buffer)
 			index.Apply(chunk, reader)
 		}
+		c.slock.Unlock(uint(chunk))
 	}
 
 	return nil
